@@ -1,2 +1,84 @@
-(* further commands are added here as the model grows *)
-let handle (_toks : string list) : string = "DRIVER-ERROR unknown command"
+(* further commands of the model driver: the structural reset model (C18) *)
+open Model
+
+let rec pos_of_int (i : int) : positive =
+  if i = 1 then XH else if i land 1 = 0 then XO (pos_of_int (i lsr 1)) else XI (pos_of_int (i lsr 1))
+let n_of_int (i : int) : n = if i = 0 then N0 else Npos (pos_of_int i)
+let rec int_of_pos (p : positive) : int =
+  match p with XH -> 1 | XO q -> 2 * int_of_pos q | XI q -> 2 * int_of_pos q + 1
+let int_of_n (x : n) : int = match x with N0 -> 0 | Npos p -> int_of_pos p
+
+let tok s = n_of_int (int_of_string s)
+let toks s = if s = "-" then [] else List.map tok (String.split_on_char ',' s)
+let stok x = string_of_int (int_of_n x)
+let stoks l = if l = [] then "-" else String.concat "," (List.map stok l)
+
+(* state serialisation: 64 leaf paths in a fixed order, lists comma separated *)
+let parse_state (f : string array) : receiver =
+  let i = ref 0 in
+  let nx () = let v = f.(!i) in incr i; v in
+  let t () = tok (nx ()) and l () = toks (nx ()) in
+  let mavg () = let w = l () in let a = t () in let b = t () in { ma_window = w; ma_inv_len = a; ma_sum = b } in
+  let ff = mavg () in let fb = mavg () in
+  let ag = let a = t () in let b = t () in let c = t () in let d = t () in let e = t () in
+    { ag_bandwidth = a; ag_min = b; ag_max = c; ag_locked = d; ag_gain = e } in
+  let de = let w = l () in let m = t () in let s = t () in { de_window = w; de_mark = m; de_space = s } in
+  let sy = let a = t () in let b = t () in let c = t () in let d = t () in let e = t () in let f1 = t () in
+    let g = t () in let h = l () in let k = t () in
+    { sy_spt = a; sy_pmin = b; sy_pmax = c; sy_alpha = d; sy_beta = e; sy_pavg = f1; sy_pinst = g;
+      sy_ted_hist = h; sy_ted_count = k } in
+  let sq = let a = t () in let b = t () in let c = t () in let d = t () in let e = t () in let f1 = t () in
+    let g = t () in let h = t () in let k = t () in let m = t () in let n1 = t () in let o = t () in
+    { sq_max_errors = a; sq_popen = b; sq_pclose = c; sq_sync_to = d; sq_data = e; sq_pt_bw = f1; sq_pt_power = g;
+      sq_sample_hist = h; sq_power_hist = k; sq_symbols = m; sq_sample_clock = n1; sq_sync_lock = o } in
+  let eq = let a = t () in let b = t () in let c = t () in let d = l () in let e = l () in let f1 = l () in
+    let g = l () in let h = t () in
+    { eq_relax = a; eq_regul = b; eq_train_to = c; eq_ff_coeff = d; eq_fb_coeff = e; eq_ff_wind = f1;
+      eq_fb_wind = g; eq_mode = h } in
+  let fr = let a = t () in let b = t () in let c = t () in let d = t () in
+    { fr_state = a; fr_last_burst = b; fr_max_prefix = c; fr_max_invalid = d } in
+  let asm = let a = t () in let b = t () in let c = t () in { as_history = a; as_state = b; as_previous = c } in
+  let bwu = t () in let bwl = t () in let rate = t () in let sc = t () in let lk = t () in let tr = t () in
+  let q = t () in let tc = t () in let ut = t () in let fe = t () in
+  { x_dc_ff = ff; x_dc_fb = fb; x_agc = ag; x_demod = de; x_sym = sy; x_squelch = sq; x_eq = eq; x_framer = fr;
+    x_asm = asm; x_bw_unlocked = bwu; x_bw_locked = bwl; x_rate = rate; x_sample_counter = sc; x_link = lk;
+    x_transport = tr; x_queue = q; x_ted_clock = tc; x_until_ted = ut; x_force_eom = fe }
+
+let show_state (x : receiver) : string =
+  let mavg m = [ stoks m.ma_window; stok m.ma_inv_len; stok m.ma_sum ] in
+  String.concat " " (
+    mavg x.x_dc_ff @ mavg x.x_dc_fb
+    @ [ stok x.x_agc.ag_bandwidth; stok x.x_agc.ag_min; stok x.x_agc.ag_max; stok x.x_agc.ag_locked; stok x.x_agc.ag_gain ]
+    @ [ stoks x.x_demod.de_window; stok x.x_demod.de_mark; stok x.x_demod.de_space ]
+    @ (let s = x.x_sym in [ stok s.sy_spt; stok s.sy_pmin; stok s.sy_pmax; stok s.sy_alpha; stok s.sy_beta;
+                            stok s.sy_pavg; stok s.sy_pinst; stoks s.sy_ted_hist; stok s.sy_ted_count ])
+    @ (let q = x.x_squelch in [ stok q.sq_max_errors; stok q.sq_popen; stok q.sq_pclose; stok q.sq_sync_to; stok q.sq_data;
+                                stok q.sq_pt_bw; stok q.sq_pt_power; stok q.sq_sample_hist; stok q.sq_power_hist;
+                                stok q.sq_symbols; stok q.sq_sample_clock; stok q.sq_sync_lock ])
+    @ (let e = x.x_eq in [ stok e.eq_relax; stok e.eq_regul; stok e.eq_train_to; stoks e.eq_ff_coeff; stoks e.eq_fb_coeff;
+                           stoks e.eq_ff_wind; stoks e.eq_fb_wind; stok e.eq_mode ])
+    @ [ stok x.x_framer.fr_state; stok x.x_framer.fr_last_burst; stok x.x_framer.fr_max_prefix; stok x.x_framer.fr_max_invalid ]
+    @ [ stok x.x_asm.as_history; stok x.x_asm.as_state; stok x.x_asm.as_previous ]
+    @ [ stok x.x_bw_unlocked; stok x.x_bw_locked; stok x.x_rate; stok x.x_sample_counter; stok x.x_link; stok x.x_transport;
+        stok x.x_queue; stok x.x_ted_clock; stok x.x_until_ted; stok x.x_force_eom ])
+
+(* resetshape <11 constant tokens> <initial_gain> <alpha> <beta> <training tokens, comma list or -> <60 state fields> *)
+let handle (toks_ : string list) : string =
+  match toks_ with
+  | "resetshape" :: rest ->
+    let a = Array.of_list rest in
+    if Array.length a <> 11 + 4 + 60 then "DRIVER-ERROR resetshape arity " ^ string_of_int (Array.length a)
+    else begin
+      let c k = tok a.(k) in
+      let ig = tok a.(11) and al = tok a.(12) and be = tok a.(13) in
+      let training = toks a.(14) in
+      let x = parse_state (Array.sub a 15 60) in
+      let initial_gain _ _ = ig and alphabeta _ = (al, be) in
+      let is_training m = List.mem m training in
+      let r = receiver_reset (c 0) (c 1) (c 2) (c 3) (c 4) (c 5) (c 6) (c 7) (c 8) (c 9) (c 10)
+                initial_gain alphabeta is_training x in
+      let f = fresh (c 0) (c 1) (c 2) (c 3) (c 4) (c 5) (c 6) (c 7) (c 8) (c 9) (c 10)
+                initial_gain alphabeta (config_of x) in
+      show_state r ^ " | " ^ show_state f
+    end
+  | _ -> "DRIVER-ERROR unknown command"
